@@ -57,7 +57,7 @@ def gen_vcmp(tier, rng):
     # (1) components at every power of two (and its neighbours) against the versions a positional packing of major.minor.patch would confuse them with
     small = [V(0, 0, 0), V(0, 0, 1), V(0, 1, 0), V(1, 0, 0), V(1, 0, 1), V(1, 1, 0), V(2, 0, 0), V(3, 6, 0), V(3, 7, 0), V(3, 7, 1), V(3, 8, 0), V(4, 0, 0)]
     npow = 0
-    for m in POWERS:
+    for m in POWERS + [1 << 62, 1 << 63, U64 - 2]:
         grp = []
         for x in (m - 1, m, m + 1):
             grp += [V(0, 0, x), V(0, x, 0), V(x, 0, 0), V(1, 0, x), V(3, 6, x), V(3, 7, x), V(3, x, 7), V(x, x, x)]
@@ -150,9 +150,11 @@ def gen_vdiff(tier, rng):
     tags = ([(), (0,), ('a',), ('a', 1)] if tier == 'quick' else [(), (0,), (1,), ('a',), ('a', 1), ('b',)]) + HV.tags()[:2]
     U = [V(a, b, c, t, rng.choice(BUILDS)) for a in nums for b in nums for c in nums for t in tags]
     cases = [dump(['vdiff', enc_version(a), enc_version(b)]) for a in U for b in U]
-    # field distances at every power of two (a narrowing cast, a packed comparison)
-    for x in power_values():
+    # field distances at every power of two (a narrowing cast, a packed comparison), and field values in the upper half of u64 (a `Version` built from a
+    # tuple or through its public fields is not limited to MAX_SAFE_INTEGER; a signed cast goes negative there)
+    for x in power_values() + [(1 << 62), (1 << 63) - 1, 1 << 63, (1 << 63) + 1, U64 - 2, U64 - 1]:
         for a, b in ((V(x, 2, 3), V(0, 2, 3)), (V(1, x, 3), V(1, 0, 3)), (V(1, 2, x), V(1, 2, 0)), (V(x + 1, 5, 0), V(1, 2, 3)), (V(1, 2, x, ('a',)), V(1, 2, 0)), (V(1, x, 0), V(1, 0, x)), (V(x, 0, 0), V(0, x, 0))):
+            if max(a[:3] + b[:3]) >= U64: continue
             cases.append(dump(['vdiff', enc_version(a), enc_version(b)])); cases.append(dump(['vdiff', enc_version(b), enc_version(a)]))
     return cases, {'universe': len(U), 'exhaustive': True,
                    'what': 'all ordered pairs over {%s}^3 x %d tags x random build metadata' % (','.join(map(str, nums)), len(tags))}
